@@ -83,7 +83,7 @@ func main() {
 		runShard(t0, shard, shards)
 		return
 	}
-	hk.Rule("fault cases: the 14-step exchange (LinkNode, MonitorNode, Link/Monitor on pid, registered name, alias, event, Call pid, Send pid, Call name, Call alias) is profiled without a fault; a case = dial orientation {survivor dialed, victim dialed} x fault {cut relayed link, StopForce, Stop, kill target, target exits with custom reason} x step x position {injected by the harness before the step; when the first request byte reaches the relay; after n request bytes; right after the last request byte; likewise for the response}; quick = every 5th case of the enumeration (offset by the seed) with one mid-frame offset per frame, thorough = all cases with many mid-frame offsets. A case is non-trivial iff the fault really fired while a step of the exchange was in flight or about to start and at least two relation requests had returned nil before (measured from the relay counters and the request results). distinct = orientation x fault x step x position class. re-arm cases: dial orientation x {StopForce, Stop, cut+StopForce} x number of watchers; every watcher holds LinkNode (plus links on pid/name/alias/event) and re-arms (LinkNode/MonitorNode/Link/Monitor) from inside its MessageExitNode handler while the node-down fan-out is parked at the wake-up of the only MonitorNode holder (yield point proc.run.wake); non-trivial iff at least one re-arm request returned while the fan-out was parked. incarnation cases: orientation of the reconnect x Stop/StopForce x direct/relayed, non-trivial iff the new incarnation reused the numeric process id of the old one and a call to it succeeded.")
+	hk.Rule("fault cases: the 14-step exchange (LinkNode, MonitorNode, Link/Monitor on pid, registered name, alias, event, Call pid, Send pid, Call name, Call alias) is profiled without a fault; a case = dial orientation {survivor dialed, victim dialed} x fault {cut relayed link, StopForce, Stop, kill target, target exits with custom reason} x step x position {injected by the harness before the step; when the first request byte reaches the relay; after n request bytes; right after the last request byte; likewise for the response}; quick = every 5th case of the enumeration (offset by the seed) with one mid-frame offset per frame, thorough = all cases with many mid-frame offsets. A case is non-trivial iff the fault really fired while a step of the exchange was in flight or about to start and at least two relation requests had returned nil before (measured from the relay counters and the request results). distinct = orientation x fault x step x position class. re-arm cases: dial orientation x {StopForce, Stop, cut+StopForce} x number of watchers; every watcher holds LinkNode (plus links on pid/name/alias/event) and re-arms (LinkNode/MonitorNode/Link/Monitor) from inside its MessageExitNode handler while the node-down fan-out is parked at the wake-up of the only MonitorNode holder (yield point proc.run.wake); non-trivial iff at least one re-arm request returned while the fan-out was parked. pooled-link cases: dial orientation x pool size {2,3} x which pooled link is closed (its accepting-side socket, taken from the conn.join yield point) and re-dialled x how the connection is dropped afterwards {survivor Disconnect, survivor NetworkStop, victim StopForce, victim Disconnect}; non-trivial iff the closed link was really re-joined (join count of the acceptor grew) while the connection stayed registered on both sides. atom-mapping cases: remote termination over a connection whose survivor side renames the victim's registered name and event. incarnation cases: orientation of the reconnect x Stop/StopForce x direct/relayed, non-trivial iff the new incarnation reused the numeric process id of the old one and a call to it succeeded.")
 	hk.Assume("one TCP link per connection (pool size 1), so cutting the relayed link is the loss of the connection")
 	hk.Assume("a process whose exit signal is not trappable (parent is the node core) counts as notified when it is terminated with the reason; observers are therefore children of an ordinary process")
 	hk.Assume("stuck-state witness: survivor has no connection entry for the victim, observer Sleep with empty mailbox and no runner, unchanged for 5 s => the missing notification will never come (node-down fan-out is a non-blocking in-memory loop)")
@@ -134,10 +134,23 @@ func runShard(t0 time.Time, shard, shards int) {
 			continue
 		}
 		all := enumerate(pr, hk.Thorough())
+		var sel []faultCase
+		have := map[string]bool{}
 		for i, fc := range all {
 			if !hk.Thorough() && (int64(i)+hk.Seed())%5 != 0 && hk.Only() == "" {
 				continue
 			}
+			sel = append(sel, fc)
+			have[fc.id()] = true
+		}
+		// the atom-mapping core cases are part of every run
+		for _, fc := range mappedCore(pr) {
+			if !have[fc.id()] {
+				sel = append(sel, fc)
+				have[fc.id()] = true
+			}
+		}
+		for _, fc := range sel {
 			fc := fc
 			nFault++
 			jobs = append(jobs, func() { runFaultCase(reg, fc, pr) })
@@ -174,6 +187,27 @@ func runShard(t0 time.Time, shard, shards int) {
 	for _, rc := range rearms {
 		rc := rc
 		jobs = append(jobs, func() { runRearmCase(reg, rc) })
+	}
+	var pools []poolCase
+	for rep := 0; rep < hk.Pick(1, 2); rep++ {
+		for _, d := range []string{"A", "B"} {
+			for _, pool := range []int{2, 3} {
+				for _, drop := range []string{"disconnect", "netstop", "peerstop", "peerdisconnect"} {
+					for cut := 0; cut < pool; cut++ {
+						if !hk.Thorough() && (cut+pool+len(drop)+int(hk.Seed()))%2 != 0 && !(d == "A" && pool == 3 && drop == "disconnect") {
+							continue
+						}
+						pools = append(pools, poolCase{Dialer: d, Pool: pool, Cut: cut, Side: "acceptor", Drop: drop, Rep: rep})
+					}
+				}
+				// no flap at all: plain drop of a pooled connection
+				pools = append(pools, poolCase{Dialer: d, Pool: pool, Cut: 0, Side: "none", Drop: "disconnect", Rep: rep})
+			}
+		}
+	}
+	for _, pc := range pools {
+		pc := pc
+		jobs = append(jobs, func() { runPoolCase(reg, pc) })
 	}
 	for _, ic := range incs {
 		ic := ic
@@ -218,6 +252,7 @@ func runShard(t0 time.Time, shard, shards int) {
 		hk.Stat("fault_cases_scheduled", int64(nFault))
 		hk.Stat("incarnation_cases_scheduled", int64(len(incs)))
 		hk.Stat("rearm_cases_scheduled", int64(len(rearms)))
+		hk.Stat("pool_cases_scheduled", int64(len(pools)))
 	}
 	if shards == 1 {
 		hk.Note("wall_seconds", int(time.Since(t0).Seconds()))
